@@ -26,6 +26,8 @@ type Fedi struct {
 	cursorN   int
 	// MaxPages, MaxItems: when positive, cap the pages per layout and items per page (wide feeds)
 	MaxPages, MaxItems int
+	// Zones: servers write the same instants in different zone notations (Z, +00:00, +02:00, ...)
+	Zones bool
 	// Big: pages of dozens to a couple of hundred entries (Lemmy serves 50 per page, some servers
 	// put a whole outbox on one page), to be asked for in large requests
 	Big bool
@@ -187,7 +189,7 @@ func (f *Fedi) noteItemAt(host string, pathN, tokN int, published time.Time, rem
 	}
 	d := Doc{"id": id, "type": "Note", "name": tok, "content": "<p>body of " + tok + "</p>"}
 	if !published.IsZero() {
-		d["published"] = fmtPublished(published)
+		d["published"] = f.fmtTime(published)
 	}
 	it := CItem{Token: tok, Time: published, Value: d}
 	f.Serve(id, d)
